@@ -55,34 +55,35 @@ inductive Item where
   | blockCall (l : Nat) (anon : Bool)
   /-- `write_def_decl`: `def f(args):`, `return render_f(…)`, `None` – **no `start_source`** -/
   | stub (ldef : Nat) (hdrObs : Bool)
-  /-- `write_inherit` – **no `start_source`** -/
+  /-- `write_inherit`: `start_source(l)` (since 2159d82), `def _mako_inherit(…):`, two lines, `None` -/
   | inherit (l : Nat)
-  /-- `write_render_callable`, up to the declarations: optional decorator line **before**
-      `start_source(lineArg)`; `def render_x(…):`, `_push_frame`, `try:`, optional `_push_buffer`.
+  /-- `write_render_callable`, up to the declarations: `start_source(lineArg)`, optional decorator line
+      (after the mark since 2159d82), `def render_x(…):`, `_push_frame`, `try:`, optional `_push_buffer`.
       `l` is the owner (the tag's line; for `render_body` the `<%page>` line or 1), `lineArg` what the
       code passes (`node.lineno`: **0** for a template without `<%page>`). -/
   | callableHead (l lineArg : Nat) (decorated hdrObs pushBuf : Bool)
   /-- `write_render_callable`, after `write_def_finish`: `None`, `write_blanks(2)` -/
   | callableTail
-  /-- `write_inline_def` up to the declarations – **no `start_source`** -/
+  /-- `write_inline_def` up to the declarations: `start_source(l)` first (since 2159d82) -/
   | inlineDefHead (l : Nat) (decorated hdrObs pushBuf : Bool)
   /-- `write_inline_def` after `write_def_finish`: `None` -/
   | inlineDefTail
   /-- `write_def_finish`: unfiltered `return ''` [`finally:`, `_pop_frame()`, `None`]; otherwise `finally:`,
       pop of the buffer, [`_pop_frame()`], `None`, and the line that applies filters / returns the buffer
-      (observable when a filter is applied), [`return ''`] – **no `start_source`** -/
-  | finish (l : Nat) (plain callstack returns retObs : Bool)
-  /-- `visitCallTag`, first line: `def ccall(caller):` -/
-  | callHead
-  /-- `visitCallTag` after `write_def_finish`: `None`, `return […]`, `None`, the `nextcaller = … ccall(…)`
-      line and `try:` – written **before** `start_source(l)` –, then the call itself, `finally:`,
+      (observable when a filter is applied), [`return ''`].  In the second form `start_source(node.lineno)`
+      comes first `if node.lineno` (2159d82): `mark` is false only for the `TemplateNode` of a cached page. -/
+  | finish (l : Nat) (plain callstack returns retObs mark : Bool)
+  /-- `visitCallTag`, first lines: `start_source(l)` (since 2159d82), `def ccall(caller):` -/
+  | callHead (l : Nat)
+  /-- `visitCallTag` after `write_def_finish`: `None`, `return […]`, `None`, `start_source(l)` (since
+      2159d82), the `nextcaller = … ccall(…)` line, `try:`, `start_source(l)`, the call itself, `finally:`,
       `nextcaller = None`, `None` -/
   | callTail (l : Nat)
   /-- `visitTextTag` with a filter: `_push_writer`, `try:` -/
   | textTagHead
-  /-- … `finally:`, pop, the filter application, `None` – **no `start_source`** -/
+  /-- … `start_source(l)` (since 2159d82), `finally:`, pop, the filter application, `None` -/
   | textTagTail (l : Nat)
-  /-- `write_cache_decorator`: `__M_x = x`, `def x(…):` -/
+  /-- `write_cache_decorator`: `start_source(l)` (since 2159d82), `__M_x = x`, `def x(…):` -/
   | cacheHead (l : Nat) (hdrObs : Bool)
   /-- … the `cache._ctx_get_or_create(…)` line, [`return ''`], `None` – **no `start_source`** -/
   | cacheTail (l : Nat) (buffered : Bool)
@@ -110,24 +111,25 @@ def emit : Item → List Event
   | .incl l => [.startSource l, line l true]
   | .blockCall l anon => if anon then [line l true] else [quiet, line l true, .writeline (some (txt 1)) none]
   | .stub l hdrObs => [line l hdrObs, line l true, dedent]
-  | .inherit l => [quiet, line l true, line l true, dedent]
+  | .inherit l => [.startSource l, quiet, line l true, line l true, dedent]
   | .callableHead l lineArg decorated hdrObs pushBuf =>
-    (if decorated then [line l true] else []) ++ [.startSource lineArg, line l hdrObs, quiet, quiet]
+    [.startSource lineArg] ++ (if decorated then [line l true] else []) ++ [line l hdrObs, quiet, quiet]
       ++ (if pushBuf then [quiet] else [])
   | .callableTail => [dedent, .writeBlanks 2]
   | .inlineDefHead l decorated hdrObs pushBuf =>
-    (if decorated then [line l true] else []) ++ [line l hdrObs, quiet, quiet] ++ (if pushBuf then [quiet] else [])
+    [.startSource l] ++ (if decorated then [line l true] else []) ++ [line l hdrObs, quiet, quiet]
+      ++ (if pushBuf then [quiet] else [])
   | .inlineDefTail => [dedent]
-  | .finish l plain callstack returns retObs =>
+  | .finish l plain callstack returns retObs mark =>
     if plain then [quiet] ++ (if callstack then [quiet, quiet, dedent] else [])
-    else [quiet, quiet] ++ (if callstack then [quiet] else []) ++ [dedent]
+    else (if mark then [.startSource l] else []) ++ [quiet, quiet] ++ (if callstack then [quiet] else []) ++ [dedent]
       ++ (if returns then [line l retObs] else [line l true, quiet])
-  | .callHead => [quiet]
+  | .callHead l => [.startSource l, quiet]
   | .callTail l =>
-    [dedent, quiet, dedent, line l true, quiet, .startSource l, line l true, quiet, quiet, dedent]
+    [dedent, quiet, dedent, .startSource l, line l true, quiet, .startSource l, line l true, quiet, quiet, dedent]
   | .textTagHead => [quiet, quiet]
-  | .textTagTail l => [quiet, quiet, line l true, dedent]
-  | .cacheHead l hdrObs => [quiet, line l hdrObs]
+  | .textTagTail l => [.startSource l, quiet, quiet, line l true, dedent]
+  | .cacheHead l hdrObs => [.startSource l, quiet, line l hdrObs]
   | .cacheTail l buffered => if buffered then [line l true, dedent] else [line l true, quiet, dedent]
   | .mark l => [.startSource l]
   | .mid l obs nl => [line l obs nl]
@@ -141,13 +143,11 @@ def emitAll (items : List Item) : List Event := items.flatMap emit
 /-- the items whose observable lines are written under a `start_source` of their own line -/
 def Item.marked : Item → Bool
   | .text _ | .expr _ _ | .control _ _ _ | .controlEnd _ | .code _ _ _ | .moduleCode _ _ | .incl _ => true
-  | .callableHead l lineArg decorated _ _ => !decorated && l == lineArg
-  | .callableTail | .inlineDefTail | .callHead | .textTagHead | .hdr _ | .none_ | .blanks _ => true
-  | .finish _ plain _ returns retObs => plain || (returns && !retObs)
-  | .inlineDefHead _ decorated hdrObs _ => !decorated && !hdrObs
-  | .cacheHead _ hdrObs => !hdrObs
+  | .callableHead l lineArg _ _ _ => l == lineArg
+  | .callableTail | .inlineDefTail | .textTagHead | .hdr _ | .none_ | .blanks _ => true
+  | .inherit _ | .inlineDefHead _ _ _ _ | .cacheHead _ _ | .callHead _ | .callTail _ | .textTagTail _ => true
+  | .finish _ plain _ returns retObs mark => plain || mark || (returns && !retObs)
   | .mid _ obs _ => !obs
-  | .stub _ _ | .inherit _ | .blockCall _ _ | .callTail _ | .textTagTail _ | .cacheTail _ _
-  | .mark _ | .metaAssign => false
+  | .stub _ _ | .blockCall _ _ | .cacheTail _ _ | .mark _ | .metaAssign => false
 
 end MakoModel.Printer.Codegen
